@@ -483,17 +483,18 @@ func (m *Manager) AllocateNAT(privateIP net.IP) (*Allocation, error) {
 		}
 	}
 
-	// Track allocation
+	// Track allocation. The assignment is logged before it becomes visible: once
+	// it is registered a concurrent DeallocateNAT of this subscriber may release
+	// the block, and that release record must not reach the log before the
+	// assignment it ends
 	m.allocationMu.Lock()
+	if m.natLogger != nil {
+		m.natLogger.LogAllocation(allocation)
+	}
 	m.allocations[privKey] = allocation
 	m.allocationMu.Unlock()
 
 	selectedPool.Subscribers++
-
-	// Log allocation event
-	if m.natLogger != nil {
-		m.natLogger.LogAllocation(allocation)
-	}
 
 	m.logger.Info("Allocated NAT for subscriber",
 		zap.String("private_ip", privateIP.String()),
